@@ -146,7 +146,9 @@ pub fn data(rng: &mut Rng, depth: usize) -> Value {
 }
 
 pub fn var_path(rng: &mut Rng) -> Value {
-    match rng.below(14) {
+    match rng.below(15) {
+        // the edges of path splitting: separators and escapes at the ends, doubled, alone
+        14 => json!(*rng.pick(&["\\", "a\\", "a.\\", "a\\\\.b", ".", "..", "a.", ".a", "a..b", "\\.", "a\\.", "0.", "é.\\"])),
         0 => json!(""),
         1 => Value::Null,
         2 => json!(rng.below(4) as i64),
